@@ -426,22 +426,28 @@ theorem parseSymbol_ok {d : TokenDef} (hw : wf d = true) {src : Str} {b e : Nat}
                     have h1 := indexOf?_getElem? value d.symbol off hoff
                     rw [hoff15, wf_minus hw] at h1
                     injection h1 with h1; exact h1.symm
-                  cases hws : charIn d.whiteSpace src (b + 1) with
-                  | error er => rw [hws] at h; cases h
-                  | ok ws =>
-                    rw [hws] at h
-                    simp only [] at h
-                    split at h
-                    · simp only [pure, Except.pure] at h
-                      injection h with h; injection h with h1 h2; subst h1 h2
-                      refine ⟨by omega, by omega, ?_, rfl⟩
-                      rw [hs1, hval]
-                      simp [rawText, Token.opUnaryMinus]
-                    · simp only [pure, Except.pure] at h
-                      injection h with h; injection h with h1 h2; subst h1 h2
-                      refine ⟨by omega, by omega, ?_, rfl⟩
-                      rw [hs1]
-                      simp [rawText, Special.opUnaryMinus]
+                  split at h
+                  · cases hws : charIn d.whiteSpace src (b + 1) with
+                    | error er => rw [hws] at h; cases h
+                    | ok ws =>
+                      rw [hws] at h
+                      simp only [] at h
+                      split at h
+                      · simp only [pure, Except.pure] at h
+                        injection h with h; injection h with h1 h2; subst h1 h2
+                        refine ⟨by omega, by omega, ?_, rfl⟩
+                        rw [hs1, hval]
+                        simp [rawText, Token.opUnaryMinus]
+                      · simp only [pure, Except.pure] at h
+                        injection h with h; injection h with h1 h2; subst h1 h2
+                        refine ⟨by omega, by omega, ?_, rfl⟩
+                        rw [hs1]
+                        simp [rawText, Special.opUnaryMinus]
+                  · simp only [pure, Except.pure] at h
+                    injection h with h; injection h with h1 h2; subst h1 h2
+                    refine ⟨by omega, by omega, ?_, rfl⟩
+                    rw [hs1]
+                    simp [rawText, Special.opUnaryMinus]
                 · rename_i hnm
                   simp only [pure, Except.pure] at h
                   injection h with h; injection h with h1 h2; subst h1 h2
@@ -559,9 +565,11 @@ theorem parseSymbol_fuel {d : TokenDef} {src : Str} {b : Nat} : parseSymbol d sr
               | ok ty =>
                 simp only []
                 split
-                · cases hws : charIn d.whiteSpace src (b + 1) with
-                  | error er => intro h; simp only [] at h; injection h with h; subst h; exact charIn_fuel hws
-                  | ok ws => simp only []; split <;> intro h <;> cases h
+                · split
+                  · cases hws : charIn d.whiteSpace src (b + 1) with
+                    | error er => intro h; simp only [] at h; injection h with h; subst h; exact charIn_fuel hws
+                    | ok ws => simp only []; split <;> intro h <;> cases h
+                  · intro h; cases h
                 · intro h; cases h
 
 theorem firstOpen_fuel {pairs : List (Str × Str)} {src : Str} {b : Nat} : firstOpen pairs src b ≠ .error .fuel := by
@@ -1503,10 +1511,8 @@ theorem combined_total {d : TokenDef} (hw : wfTotal d = true) (src : Str) (b w :
       rw [typeOf_total this]
       exact ⟨_, rfl⟩
 
-/-- under the side conditions the dispatched sub-parser succeeds at every position whose character is in the alphabet,
-    unless it is a minus sign in the very last position -/
+/-- under the side conditions the dispatched sub-parser succeeds at every position whose character is in the alphabet -/
 theorem parser_total {d : TokenDef} (hw : wf d = true) (hwt : wfTotal d = true) {src : Str} {b dom : Nat}
-    (hlast : src[b]? = some '-' → b + 1 < src.length)
     (hd : analyzeDomain d src b = .ok dom) : ∃ r, parser d dom src b = .ok r := by
   have ha := analyzeGo_sound _ _ hd
   unfold analyzer at ha
@@ -1574,25 +1580,21 @@ theorem parser_total {d : TokenDef} (hw : wf d = true) (hwt : wfTotal d = true) 
                   have hty := typeOf_total (hwt.2 off (by simpa using hofflt))
                   simp only [hoff, hty]
                   split
-                  · rename_i hminus
-                    have hoff15 : off = 15 := by simp [T.minus, Dom.symbol] at hminus; omega
-                    have hval : c = '-' := by
-                      have h1 := indexOf?_getElem? c d.symbol off hoff
-                      rw [hoff15, wf_minus hw] at h1
-                      injection h1 with h1; exact h1.symm
-                    have hnext := hlast (hval ▸ hc)
-                    have hget : src[b + 1]? = some (src[b + 1]'hnext) := List.getElem?_eq_getElem hnext
-                    rw [charIn_eq hget]
-                    simp only []
-                    split <;> exact ⟨_, rfl⟩
+                  · split
+                    · rename_i hnext
+                      have hget : src[b + 1]? = some (src[b + 1]'hnext) := List.getElem?_eq_getElem hnext
+                      rw [charIn_eq hget]
+                      simp only []
+                      split <;> exact ⟨_, rfl⟩
+                    · exact ⟨_, rfl⟩
                   · exact ⟨_, rfl⟩
             · rename_i h5
               simp only [h5, ↓reduceIte] at ha
               cases ha
 
-/-- the main loop accepts every source over the alphabet that does not end in a minus sign -/
+/-- the main loop accepts every source over the alphabet -/
 theorem parseLoop_total {d : TokenDef} (hw : wf d = true) (hwt : wfTotal d = true) {src : Str}
-    (halpha : ∀ c ∈ src, alphaChar d c = true) (hlast : ∀ b, src[b]? = some '-' → b + 1 < src.length) :
+    (halpha : ∀ c ∈ src, alphaChar d c = true) :
     ∀ (fuel i : Nat), src.length - i ≤ fuel → ∃ toks, parseLoop d src fuel i = .ok toks
   | fuel, i, hf => by
     unfold parseLoop
@@ -1605,10 +1607,10 @@ theorem parseLoop_total {d : TokenDef} (hw : wf d = true) (hwt : wfTotal d = tru
         have hget : src[i]? = some (src[i]'hlt) := List.getElem?_eq_getElem hlt
         have hal := halpha _ (List.getElem_mem hlt)
         obtain ⟨dom, hd⟩ := analyzeDomain_total hwt hget hal
-        obtain ⟨r, hr⟩ := parser_total hw hwt (hlast i) hd
+        obtain ⟨r, hr⟩ := parser_total hw hwt hd
         obtain ⟨e, t⟩ := r
         have hs := parser_ok hw hlt hd hr
-        obtain ⟨rest, hrest⟩ := parseLoop_total hw hwt halpha hlast f e (by have := hs.lt; omega)
+        obtain ⟨rest, hrest⟩ := parseLoop_total hw hwt halpha f e (by have := hs.lt; omega)
         simp only [hd, hr, hrest, bind, Except.bind, pure, Except.pure]
         exact ⟨_, rfl⟩
     · exact ⟨[], rfl⟩
